@@ -291,7 +291,7 @@ def handle (toks : List String) : String :=
     | some cs =>
       (match isFlag cs with
         | .ok none => "none"
-        | .ok (some (sh, name)) => (if sh then "short" else "long") ++ " s:" ++ String.ofList name
+        | .ok (some (sh, name)) => (if sh then "short" else "long") ++ " " ++ outStr (name.map Char.toNat)
         | .error e => e.name)
     | none => "bad-op"
   | ["nextarg", args, names] =>
